@@ -87,6 +87,16 @@ def fork_job(args):
         ob, sb = b.run()
         obs_a = observe(a, k_real, oa, sa if oa == "spec" else None, a.namer)
         obs_b = observe(b, 0, ob, sb if ob == "spec" else None, a.namer)
+        # the same question again (no work in between) on both copies
+        for obs, sess, o in ((obs_a, a, oa), (obs_b, b, ob)):
+            obs["again"] = ""
+            if o == "spec":
+                try:
+                    with sess.cdb_rec.paused():
+                        sess.searcher.get_specification(minimization_time_limit=0)
+                    obs["again"] = "spec"
+                except Exception as e:
+                    obs["again"] = type(e).__name__
         events.append({"op": "pair", "a": obs_a, "b": obs_b})
         # ---- interruption consistency of the original
         handed = [e["ret"] for e in a.ev["queue"] if e["op"] in ("next", "dl_next") and e["ret"]["k"] in ("inf", "init", "exp")]
@@ -112,7 +122,7 @@ def run(tier: str, seed: int) -> int:
     rnd = random.Random(seed + 17)
     base = []
     pats = [("aa",), ("aba", "bb"), ("ab",), ("aa", "aab")] if tier == "quick" else [tuple(p) for p in sc.PATTERN_SETS_AB[:10]]
-    packs = ["plain", "syminf", "factory", "pv2"] if tier == "quick" else ["plain", "sym", "syminf", "merge", "factory", "pfactory", "twosets", "pv2", "iter"]
+    packs = ["plain", "syminf", "factory", "pv2", "iter", "two"] if tier == "quick" else ["plain", "sym", "syminf", "merge", "factory", "pfactory", "twosets", "pv2", "iter", "two", "split"]
     for p in pats:
         for pk in packs:
             for fl in ("default", "forget", "forest"):
